@@ -21,6 +21,8 @@ RULE = ('operations: register(loc in {L1, L2, method M}, kind in {snapshot, snap
         'all histories to the depth bound, de-duplicated by (observed installed behaviour in order, model state); '
         'non-trivial = histories with >= 2 live registrations on one location or an unregister of a dead handle'
         ' ; after every registration the caller mutates the lists and dict it passed; E1 facet: two application threads using handles at once (unregister/unregister, unregister/register, the same handle twice) on three registrations of one line, preemption bound 2 / 3')
+RULE_ADDED = 'rounds 3-5: the caller edits label lists and definitions after registering; another handle used from inside add_custom / remove_custom at every line (re-entrancy)'
+RULE = RULE + ' ; ' + RULE_ADDED
 ASSUMPTIONS = ['sequential histories (inline task execution); concurrency of updates is C12',
                'closure is not claimed: payloads are unique per call so the state space is unbounded; the depth bound is the bound']
 
